@@ -64,6 +64,8 @@ EDITS = {
     'retype': lambda m: ent(m, 'ns', 'A')[2].__setitem__(1, F('f2', 'String', 'nullable')),
     'nullable-to-required': lambda m: ent(m, 'ns', 'A')[2].__setitem__(1, F('f2', 'Integer', 'req')),
     'nullable-to-default': lambda m: ent(m, 'ns', 'A')[2].__setitem__(1, F('f2', 'Integer', 'default')),
+    'default-to-nullable': lambda m: ent(m, 'ns', 'A')[2].__setitem__(2, F('f3', 'Boolean', 'nullable')),
+    'default-to-required': lambda m: ent(m, 'ns', 'A')[2].__setitem__(2, F('f3', 'Boolean', 'req')),
     'required-to-nullable': lambda m: ent(m, 'ns', 'A')[2].__setitem__(0, F('f1', 'String', 'nullable')),
     'deprecate': lambda m: (set_ent(m, 'ns', 'A', ('A', True, ent(m, 'ns', 'A')[2])), ent(m, 'ns', 'A')[2].__setitem__(0, F('f1', 'String', 'req', True))),
     'flip-then-remove': lambda m: (ent(m, 'ns', 'A')[2].__setitem__(0, F('f1', 'String', 'nullable', True)), ent(m, 'ns', 'A')[2].pop()),
@@ -219,6 +221,34 @@ def deep_eq(a, b):
     return a is b
 
 
+def attrs_differ(w, dm, fresh):
+    """first attribute (deprecated / nullable / default) on which the running model and a model built from the accepted text differ: (label, condition) or None"""
+    def ents(d):
+        out = {}
+        for nk, nc in deref(w.field(d, 'DataModel', 'namespaces').v).entries:
+            for ek, ec in nc.v.entries:
+                out[ek.lit.decode()] = ec.v
+        return out
+    a, b = ents(dm), ents(fresh)
+    conds = []
+    for en, eb in b.items():
+        if en not in a:
+            return ('entity %s missing' % en, z3.BoolVal(True))
+        ea = a[en]
+        conds.append(('entity %s deprecated flag' % en, znot(zb(deep_eq(w.field(ea, 'Entity', 'deprecated').v, w.field(eb, 'Entity', 'deprecated').v)))))
+        fa = {k.lit.decode(): c.v for k, c in deref(w.field(ea, 'Entity', 'fields').v).entries}
+        for fk, fc in deref(w.field(eb, 'Entity', 'fields').v).entries:
+            fn = fk.lit.decode()
+            if fn not in fa:
+                return ('field %s.%s missing' % (en, fn), z3.BoolVal(True))
+            for attr in ('nullable', 'deprecated', 'default_value'):
+                conds.append(('field %s.%s %s' % (en, fn, attr), znot(zb(deep_eq(w.field(fa[fn], 'Field', attr).v, w.field(fc.v, 'Field', attr).v)))))
+    live = [(l, c) for l, c in conds if not z3.is_false(z3.simplify(c))]
+    if not live:
+        return None
+    return ('; '.join(l for l, c in live[:3]), zor(*[c for l, c in live]))
+
+
 def read_ids(w, dm):
     """{entity name: (short, {field: (short, type)})} from the real DataModel value"""
     out = {}
@@ -293,6 +323,17 @@ def explore(ctx, shape, tier, report):
                                                                      sorted((k, sorted((f, s[0]) for f, s in v[1].items())) for k, v in ids_after.items()))
             report.violation(ctx, ctx.check_sat(True), 'ids-depend-on-map-order', info)
             return
+        # (vi) the attributes of the running model are those of the accepted version (a peer that starts from this version has exactly them)
+        ctx.map_order = 'fixed'
+        fresh = build_model(ctx, w, new_decl, 'new', flags, sym)
+        ctx.map_order = 'all'
+        bad = attrs_differ(w, dm.v, fresh.v)
+        if bad is not None:
+            mm = ctx.check_sat(bad[1])
+            if mm is not None:
+                info['detail'] = bad[0]
+                report.violation(ctx, mm, 'attributes-not-those-of-the-accepted-version', info)
+                return
         # (iv) re-applying the accepted version is accepted and changes nothing (restart with the same model)
         ctx.map_order = 'fixed'
         again = build_model(ctx, w, new_decl, 'new', flags, sym)
@@ -308,6 +349,36 @@ def explore(ctx, shape, tier, report):
             return
         if read_ids(w, dm.v) != ids_after:
             report.violation(ctx, ctx.check_sat(True), 'reapplying-accepted-version-changes-ids', info)
+            return
+        # (v) the next version (one more entity per namespace, one more nullable field per entity) is accepted and neither moves nor re-uses an identifier
+        next_decl = copy.deepcopy(new_decl)
+        for ns, ents in next_decl:
+            for e in ents:
+                e[2].append(F('nx_' + e[0].lower(), 'String', 'nullable'))
+            ents.append(('Nx' + ns.capitalize(), False, [F('n1', 'String', 'nullable')]))
+        ctx.map_order = 'fixed'
+        nxt = build_model(ctx, w, next_decl, 'new', flags, sym)
+        info['next'] = next_decl
+        try:
+            res3 = ctx.exec_fn(update_with, [Ref(dm, True), nxt.v, False])
+        except Panic as p:
+            report.panic(ctx, w, p, info)
+            return
+        finally:
+            ctx.map_order = 'all'
+        if res3.variant != 0:
+            report.violation(ctx, ctx.check_sat(True), 'next-version-refused', info)
+            return
+        ids_next = read_ids(w, dm.v)
+        for en, (es, fl) in ids_after.items():
+            if en not in ids_next or ids_next[en][0] != es or any(fn not in ids_next[en][1] or ids_next[en][1][fn] != v for fn, v in fl.items()):
+                info['detail'] = 'entity %s after the next version' % en
+                report.violation(ctx, ctx.check_sat(True), 'storage-id-changed', info)
+                return
+        shorts = [(k.split('.')[0], v[0]) for k, v in ids_next.items()]
+        if len(set(shorts)) != len(shorts) or any(len(set(f[0] for f in v[1].values())) != len(v[1]) for v in ids_next.values()):
+            info['detail'] = 'after the next version: %r' % sorted((k, v[0]) for k, v in ids_next.items())
+            report.violation(ctx, ctx.check_sat(True), 'storage-id-collision', info)
 
     try:
         ctx.explore(path)
@@ -351,8 +422,12 @@ def scenario(ctx, m, kind, info):
                     'reapplying-accepted-version-refused': dict(reapply_refused=True),
                     'reapplying-accepted-version-changes-ids': dict(reapply_changes=True),
                     'storage-id-changed': dict(id_changed=True),
-                    'storage-id-collision': dict(id_collision=True)}[kind]
+                    'storage-id-collision': dict(id_collision=True),
+                    'next-version-refused': dict(next_refused=True),
+                    'attributes-not-those-of-the-accepted-version': dict(attributes_differ=True)}[kind]
+    if info.get('next') is not None:
+        sc['next_text'] = model_text(info['next'], 'new', info.get('flags'), m)
     sc['what'] = '%s (edit: %s) %s' % (kind, info['shape']['edit'], info.get('detail', ''))
     cls = {'add2': 'several-fields-added', 'add3': 'several-fields-added', 'add2-and-entity': 'several-fields-added', 'add2-both-entities': 'several-fields-added'}.get(info['shape']['edit'], info['shape']['edit'])
-    sc['signature'] = '%s:%s' % (kind, cls if kind in ('ids-depend-on-map-order', 'reapplying-accepted-version-refused', 'reapplying-accepted-version-changes-ids') else 'partial-update')
+    sc['signature'] = '%s:%s' % (kind, 'partial-update' if kind == 'refused-update-changed-the-model' else cls)
     return sc
